@@ -38,6 +38,9 @@ func (k *GKey) UnmarshalText(b []byte) error {
 		return errors.New("GKey: bad numbers")
 	}
 	k.A, k.B = a, c
+	// from here on this method does not use its receiver: while the second action runs, the
+	// only reference to a freshly allocated key is whatever the caller (generated code) holds
+	Stress("GKey.UnmarshalText/done")
 	return nil
 }
 
@@ -57,6 +60,7 @@ func (k *GKeyS) UnmarshalText(b []byte) error {
 		return err
 	}
 	*k = GKeyS(h)
+	Stress("GKeyS.UnmarshalText/done")
 	return nil
 }
 
@@ -97,6 +101,7 @@ func (k *GKeyBig) UnmarshalText(b []byte) error {
 		return err
 	}
 	k.S = string(h)
+	Stress("GKeyBig.UnmarshalText/done")
 	return nil
 }
 
@@ -122,6 +127,7 @@ func (g *GJ) UnmarshalJSON(b []byte) error {
 		return err
 	}
 	g.N, g.S = x.N, x.S
+	Stress("GJ.UnmarshalJSON/done")
 	return nil
 }
 
@@ -155,6 +161,7 @@ func (g *GJP) UnmarshalJSON(b []byte) error {
 			g.L = make([]int, int(n))
 		}
 	}
+	Stress("GJP.UnmarshalJSON/done")
 	return nil
 }
 
@@ -170,6 +177,7 @@ func (g *GT) UnmarshalText(b []byte) error {
 	s := string(b)
 	Stress("GT.UnmarshalText")
 	g.S = strings.TrimPrefix(s, "t:")
+	Stress("GT.UnmarshalText/done")
 	return nil
 }
 
